@@ -68,6 +68,7 @@ func lenOfField(v ssa.Value, f *types.Var) bool {
 }
 
 func runC15(c *Ctx) {
+	labelRule(c, "C15.R4", []string{"server/upstream", "server/proxy", "server/cluster", "pkg/middleware"}, 2, false)
 	p := c.P
 	upstreams := p.Field(upPkg, "loadBalancer", "upstreams")
 	nextIdx := p.Field(upPkg, "loadBalancer", "nextIndex")
